@@ -41,11 +41,12 @@ func cfgListener(l map[string]any) (int, any) {
 	if bl("kill") {
 		kill = cfgKill
 	}
+	sfx := cfgSfx[s("text")]
 	if s("kind") == "smb" {
-		return handlers.LISTENER_PIVOT_SMB, &handlers.SMB{Config: handlers.SMBConfig{Name: "smb", PipeName: "verifpipe", KillDate: kill, WorkingHours: s("wh")}}
+		return handlers.LISTENER_PIVOT_SMB, &handlers.SMB{Config: handlers.SMBConfig{Name: "smb", PipeName: "verifpipe" + sfx, KillDate: kill, WorkingHours: s("wh")}}
 	}
 	c := handlers.HTTPConfig{Name: "web", KillDate: kill, WorkingHours: s("wh"), HostBind: "0.0.0.0", PortBind: "4443", PortConn: s("portconn"),
-		Methode: s("method"), HostRotation: s("rot"), Secure: bl("secure"), UserAgent: "VerifUA/1.0"}
+		Methode: s("method"), HostRotation: s("rot"), Secure: bl("secure"), UserAgent: "VerifUA/1.0" + sfx}
 	switch s("hosts") {
 	case "one":
 		c.Hosts = []string{"a.example"}
@@ -63,31 +64,40 @@ func cfgListener(l map[string]any) (int, any) {
 		c.Hosts = []string{"::1"}
 	}
 	if n("nheaders") >= 1 {
-		c.Headers = append(c.Headers, "X-One: 1")
+		c.Headers = append(c.Headers, "X-One: 1"+sfx)
 	}
 	if n("nheaders") >= 2 {
 		c.Headers = append(c.Headers, "X-Two: b: c")
 	}
 	if bl("hosthdr") {
-		c.HostHeader = "front.example"
+		c.HostHeader = "front.example" + sfx
 	}
 	if n("nuris") >= 1 {
-		c.Uris = append(c.Uris, "/a")
+		c.Uris = append(c.Uris, "/a"+sfx)
 	}
 	if n("nuris") >= 2 {
 		c.Uris = append(c.Uris, "/b?x=1")
 	}
 	if bl("proxy") {
-		c.Proxy.Enabled, c.Proxy.Type, c.Proxy.Host, c.Proxy.Port, c.Proxy.Username, c.Proxy.Password = true, "http", "proxy.example", "3128", "puser", "ppass"
+		c.Proxy.Enabled, c.Proxy.Type, c.Proxy.Host, c.Proxy.Port, c.Proxy.Username, c.Proxy.Password = true, "http", "proxy.example", "3128", "puser"+sfx, "ppass"
 	}
 	return handlers.LISTENER_HTTP, &handlers.HTTP{Config: c}
 }
 
+// the characters the text classes of ConfigLayout.tla stand for, and the way a string that was read back is written for the specification:
+// those two characters by their names, everything else as it is (so a character that came back as another one stays visible)
+var cfgSfx = map[string]string{"bmp": "\u0416", "astral": "\U0001F680"}
+
+func cfgName(s string) string {
+	return strings.NewReplacer("\u0416", "<U+0416>", "\U0001F680", "<U+1F680>").Replace(s)
+}
+
 func strs(v []string) []string {
-	if v == nil {
-		return []string{}
+	out := []string{}
+	for _, x := range v {
+		out = append(out, cfgName(x))
 	}
-	return v
+	return out
 }
 
 func RunConfig(behs [][]Step, tr *Trace, env Env, sum *Summary) {
@@ -152,7 +162,7 @@ func RunConfig(behs [][]Step, tr *Trace, env Env, sum *Summary) {
 						kill = 1
 					}
 					if smb {
-						res["l"] = map[string]any{"kind": "smb", "pipe": c.Pipe, "kill": kill, "wh": c.WorkingHours}
+						res["l"] = map[string]any{"kind": "smb", "pipe": cfgName(c.Pipe), "kill": kill, "wh": c.WorkingHours}
 					} else {
 						hosts := [][]any{}
 						for i := range c.Hosts {
@@ -160,10 +170,10 @@ func RunConfig(behs [][]Step, tr *Trace, env Env, sum *Summary) {
 						}
 						proxy := []string{}
 						if c.ProxyEnabled != 0 {
-							proxy = []string{c.ProxyURL, c.ProxyUser, c.ProxyPass}
+							proxy = []string{cfgName(c.ProxyURL), cfgName(c.ProxyUser), cfgName(c.ProxyPass)}
 						}
 						res["l"] = map[string]any{"kind": "http", "kill": kill, "wh": c.WorkingHours, "method": c.Method, "rot": c.Rotation, "hosts": hosts,
-							"secure": c.Secure, "ua": c.UserAgent, "headers": strs(c.Headers), "uris": strs(c.Uris), "proxy": proxy}
+							"secure": c.Secure, "ua": cfgName(c.UserAgent), "headers": strs(c.Headers), "uris": strs(c.Uris), "proxy": proxy}
 					}
 				}
 			}
